@@ -88,7 +88,8 @@ ROWS = {
   text='Lean theorems for routing paths of every length: the bridged request is a nest of Send Message layers (one per '
        'hop, right bridge address, channel, tracking bit, valid checksums) whose innermost frame is the original '
        'request; unwrap(wrap reply) = reply for every depth; a failing layer yields its completion code; a bare '
-       'acknowledgement is never returned and makes the transport read on.',
+       'acknowledgement is never returned and makes the transport read on; after ANY history of re-routings of one Target the '
+       'request traverses exactly the hops of the path configured last (reroute_peel_all).',
   note='Model/Bridge.lean hand-written on top of the generated C03 framing model; Send Message ids and channel-byte bit '
        'positions regenerated from the live SendMessageReq class; tie by differential run (depth 1..8)',
   tech='Lean 4 proof (induction on the routing list) + translator + differential correspondence'),
